@@ -14,7 +14,7 @@ import (
 func init() {
 	Register(&PropDef{
 		ID: "C01", QuickRuns: 4800, Level: "exploration",
-		Rule:   "one run = an association/session history of 1-2 peers into which 3-25 hostile datagrams are injected (random bytes; truncations; every message type the dispatcher handles and unsupported ones with 1-3 IE-level mutations: drop / duplicate / empty / retype / truncate / garble / IPv6-only address forms / corrupted flow descriptions / textual values respelt in letter case and padding; in states: first datagram on the listening socket, before/after association, with sessions, unknown SEID, after release). In one run in four the agent itself opens the association towards the victim (cpiface.peers) and every transmission of its Association Setup Request is answered with a valid, rejected, truncated or IE-mutated response carrying the right sequence number. With heartbeats enabled (intervals 15 ms / 40 ms / 5 s) the victim may sit on the agent's Heartbeat Requests and answer them late, and repeats its Association Setup on the live association, so that responses meet requests the agent has meanwhile abandoned; its PFCP port may be closed for a moment while the agent answers it (ICMP port unreachable, ECONNREFUSED on the agent's next read). One run in 48 is a long valid history instead: one failed write to the end-marker socket followed by more than a thousand hand-overs with end markers over two associations, every one of which must be answered. Monitors: any panic or Fatal of an agent task (attributed to the innermost repo frame); a valid Heartbeat Request sent afterwards on the same and on another association must be answered; at most one response-type datagram per injected datagram. Non-trivial = at least one accepted session operation or association plus at least one hostile datagram; distinct = different sequence of (state, message type, mutation kinds).",
+		Rule:   "one run = an association/session history of 1-2 peers into which 3-25 hostile datagrams are injected (random bytes; truncations; every message type the dispatcher handles and unsupported ones with 1-3 IE-level mutations: drop / duplicate / empty / retype / truncate / garble / IPv6-only address forms / corrupted flow descriptions / textual values respelt in letter case and padding; in states: first datagram on the listening socket, before/after association, with sessions, unknown SEID, after release; first datagrams of up to three further peers arrive while socket() fails with EMFILE - they are served once descriptors are free again). In one run in four the agent itself opens the association towards the victim (cpiface.peers) and every transmission of its Association Setup Request is answered with a valid, rejected, truncated or IE-mutated response carrying the right sequence number. With heartbeats enabled (intervals 15 ms / 40 ms / 5 s) the victim may sit on the agent's Heartbeat Requests and answer them late, and repeats its Association Setup on the live association, so that responses meet requests the agent has meanwhile abandoned; its PFCP port may be closed for a moment while the agent answers it (ICMP port unreachable, ECONNREFUSED on the agent's next read). One run in 48 is a long valid history instead: one failed write to the end-marker socket followed by more than a thousand hand-overs with end markers over two associations, every one of which must be answered. Monitors: any panic or Fatal of an agent task (attributed to the innermost repo frame); a valid Heartbeat Request sent afterwards on the same and on another association must be answered; at most one response-type datagram per injected datagram. Non-trivial = at least one accepted session operation or association plus at least one hostile datagram; distinct = different sequence of (state, message type, mutation kinds).",
 		Assume: []string{"hostile generators are built on an independent TLV codec; 'answered' means within 5 virtual seconds after the agent is quiescent"},
 		Real:   CommonReal, Simulated: CommonSim,
 		Scenario: scenarioC01,
@@ -403,6 +403,7 @@ func scenarioC01(r *Run) {
 		}
 		return true
 	}
+	nStrangers := 0
 	n := 3 + r.Ch.Choose(23, "nhostile")
 	for k := 0; k < n && r.AgentAlive(); k++ {
 		// move the victim association's state along
@@ -427,6 +428,28 @@ func scenarioC01(r *Run) {
 				r.Fault("peer-port-closed-icmp-unreachable")
 				r.Op("peer0's port was closed for a moment (ICMP port unreachable towards the agent)")
 				r.Skel("port-closed")
+			}
+		case 5:
+			// A peer the agent has never heard of sends its first datagram while the
+			// process cannot open another socket (file descriptors used up - e.g. by
+			// datagrams from many source ports): that peer gets no connection, and
+			// nothing else may suffer. When descriptors are free again it is served.
+			if nStrangers < 3 {
+				nStrangers++
+				c := r.AddPeer()
+				r.W.Net.DialFailNext = 1
+				c.SendMsg(c.AssocSetupMsg())
+				r.Sim.RunFor(30 * time.Millisecond)
+				failed := r.W.Net.DialFailNext == 0
+				r.W.Net.DialFailNext = 0
+				r.Fault("socket-creation-failed-emfile")
+				r.Op("first datagram of a new peer (peer%d) while socket() fails with EMFILE (attempt seen: %v)", c.Idx, failed)
+				r.Skel("emfile")
+				if r.AgentAlive() && failed && r.Ch.Choose(2, "stranger-again") == 1 {
+					if c.AssociateRetry() == nil && r.AgentAlive() {
+						r.Violate("C01", "peer-locked-out-after-failed-socket", "a peer whose first datagram arrived while socket() failed gets no answer to a valid Association Setup Request afterwards\n%s", strings.Join(r.Sim.BlockedTable(), "\n"))
+					}
+				}
 			}
 		case 6:
 			if r.Conf.EnableHBTimer {
